@@ -10,7 +10,7 @@
 //! at every call index across runs.
 //! Oracle: conservation over the recorded device history (see DESIGN §4 C11).
 
-use crate::backends::SimWord;
+use crate::backends::{SimWord, SparseBytes};
 use crate::bits::*;
 use crate::fw::*;
 use crate::model::{BitModel, En};
@@ -55,6 +55,10 @@ pub enum Mode {
     BitWrite { e: En, ops: Vec<BitOp> },
     /// bit-level stream read through the adapter vs. memory
     BitRead { e: En, buffered_reader: bool, ops: Vec<BitOp> },
+    /// scale: word-level history (reads, positions, seeks) on a byte source of up to 2^62
+    /// bytes: `head_words` real words, `zero_words` zero words served by the sparse byte
+    /// stub, `tail_words` real words plus `extra` bytes of a partial trailing word
+    HugeSeek { head_words: usize, zero_words: u64, tail_words: usize, extra: usize, seed: u64, ops: Vec<Op11> },
 }
 
 #[derive(Clone, Debug, Serialize, Deserialize)]
@@ -353,6 +357,139 @@ fn word_write_run<W: SimWord, A: WordWrite<Word = W, Error = std::io::Error> + W
 }
 
 // ------------------------------------------------------------ word read
+
+#[allow(clippy::too_many_arguments)]
+fn huge_word_seek<W: SimWord>(s: &S11, head_words: usize, zero_words: u64, tail_words: usize, extra: usize, seed: u64, ops: &[Op11], ctx: &mut Ctx) {
+    let nb = W::NBYTES;
+    let mut r = Rng::new(seed);
+    let head: Vec<u8> = (0..head_words * nb).map(|_| r.next() as u8 | 1).collect();
+    let tail: Vec<u8> = (0..tail_words * nb + extra.min(nb - 1)).map(|_| r.next() as u8 | 1).collect();
+    let dev = SparseBytes {
+        head: std::rc::Rc::new(head.clone()),
+        zeros: zero_words * nb as u64,
+        tail: std::rc::Rc::new(tail.clone()),
+        pos: 0,
+    };
+    let whole = head_words as u64 + zero_words + tail_words as u64;
+    let word_at = |i: u64| -> u128 {
+        if i < head_words as u64 {
+            W::from_ne(&head[i as usize * nb..(i as usize + 1) * nb]).as_u128()
+        } else if i < head_words as u64 + zero_words {
+            0
+        } else {
+            let k = (i - head_words as u64 - zero_words) as usize;
+            W::from_ne(&tail[k * nb..(k + 1) * nb]).as_u128()
+        }
+    };
+    match s.wrap {
+        Wrap::Direct => {
+            let mut a = WordAdapter::<W, _>::new(dev);
+            huge_word_seek_run::<W, _>(s, whole, &word_at, ops, ctx, &mut a);
+        }
+        Wrap::Buffered(cap) => {
+            let mut a = WordAdapter::<W, _>::new(BufReader::with_capacity(cap.max(1), dev));
+            huge_word_seek_run::<W, _>(s, whole, &word_at, ops, ctx, &mut a);
+        }
+    }
+}
+
+fn huge_word_seek_run<W: SimWord, A: WordRead<Word = W, Error = std::io::Error> + WordSeek<Error = std::io::Error>>(
+    s: &S11,
+    whole: u64,
+    word_at: &dyn Fn(u64) -> u128,
+    ops: &[Op11],
+    ctx: &mut Ctx,
+    a: &mut A,
+) {
+    let mut pos: u64 = 0;
+    let mut lost = false;
+    let tg = |what: &str| {
+        let mut t = tags(s, what);
+        t.push("scale=huge_positions".into());
+        t
+    };
+    for (i, op) in ops.iter().enumerate() {
+        ctx.ops += 1;
+        match op {
+            Op11::ReadWord => {
+                ctx.step(tg("read_word"));
+                let r = match guard(|| a.read_word()) {
+                    Ok(r) => r,
+                    Err(p) => return ctx.fail("C11.panic", format!("read_word panicked: {}", p)),
+                };
+                if lost {
+                    continue;
+                }
+                match r {
+                    Ok(w) => {
+                        ctx.ev(w.as_u128() as u64);
+                        if pos >= whole {
+                            return ctx.fail(
+                                "C11.fabricated_word",
+                                format!("op #{} read_word at word {} returned {:x} although the device holds {} whole words", i, pos, w.as_u128(), whole),
+                            );
+                        }
+                        let exp = word_at(pos);
+                        if w.as_u128() != exp {
+                            return ctx.fail(
+                                "C11.wrong_word",
+                                format!("op #{} read_word at word {} returned {:x}, the device holds {:x} there", i, pos, w.as_u128(), exp),
+                            );
+                        }
+                        pos += 1;
+                        ctx.progressed = true;
+                    }
+                    Err(_) => {
+                        if pos < whole {
+                            return ctx.fail(
+                                "C11.spurious_error",
+                                format!("op #{} read_word at word {} of {} failed on a fault-free device", i, pos, whole),
+                            );
+                        }
+                        lost = true;
+                    }
+                }
+            }
+            Op11::Pos => {
+                ctx.step(tg("word_pos"));
+                let r = match guard(|| a.word_pos()) {
+                    Ok(r) => r,
+                    Err(p) => return ctx.fail("C11.panic", format!("word_pos panicked: {}", p)),
+                };
+                if lost {
+                    continue;
+                }
+                match r {
+                    Ok(p) => {
+                        ctx.ev(p);
+                        if p != pos {
+                            return ctx.fail(
+                                "C11.word_pos",
+                                format!("op #{} word_pos() = {} but {} words precede the next word", i, p, pos),
+                            );
+                        }
+                    }
+                    Err(e) => return ctx.fail("C11.spurious_error", format!("op #{} word_pos failed: {}", i, e)),
+                }
+            }
+            Op11::SetPos(p) => {
+                ctx.step(tg("set_word_pos"));
+                match guard(|| a.set_word_pos(*p)) {
+                    Ok(Ok(())) => {
+                        pos = *p;
+                        lost = false;
+                        ctx.cover("c11.huge_seek_log2", 64 - p.leading_zeros() as u64);
+                        ctx.probe_if(*p >= 1 << 32, "c11.word_pos_above_2^32");
+                    }
+                    Ok(Err(e)) => return ctx.fail("C11.spurious_error", format!("op #{} set_word_pos({}) failed on a fault-free device: {}", i, p, e)),
+                    Err(pm) => return ctx.fail("C11.panic", format!("set_word_pos({}) panicked: {}", p, pm)),
+                }
+            }
+            _ => {}
+        }
+        ctx.sig(&[1100, s.word as u64, (s.wrap != Wrap::Direct) as u64, 64 - pos.leading_zeros() as u64, lost as u64]);
+    }
+}
 
 fn word_read<W: SimWord>(s: &S11, content: &[u8], ops: &[Op11], ctx: &mut Ctx) {
     let disk = SimDisk::new(content.to_vec(), &s.plan);
@@ -774,6 +911,43 @@ impl Family for C11 {
         };
         let which = rng.below(10);
         let nops = rng.usize_range(1, 14);
+        if index % 25 == 17 {
+            // (index % 25 is correlated with the word selection above)
+            let word = *rng.pick(&Wd::ALL);
+            let nb = word.bytes();
+            let k = *rng.pick(&[29u32, 32, 32, 33, 36, 40, 48, 56, 62]);
+            let zero_words = (1u64 << k) / nb as u64 + rng.below(1000);
+            let head_words = rng.usize_range(0, 5);
+            let tail_words = rng.usize_range(0, 6);
+            let whole = head_words as u64 + zero_words + tail_words as u64;
+            let mut ops = Vec::new();
+            for _ in 0..nops + 2 {
+                ops.push(match rng.below(10) {
+                    0..=4 => Op11::ReadWord,
+                    5 | 6 => Op11::Pos,
+                    _ => Op11::SetPos(match rng.below(5) {
+                        0 => rng.below(head_words as u64 + 2),
+                        1 => head_words as u64 + zero_words - rng.below(3),
+                        2 => head_words as u64 + zero_words / 2 + rng.below(1000),
+                        3 => whole - rng.below(tail_words as u64 + 2).min(whole),
+                        _ => whole + rng.below(3),
+                    }),
+                });
+            }
+            return S11 {
+                word,
+                wrap,
+                plan: FaultPlan::none(),
+                mode: Mode::HugeSeek {
+                    head_words,
+                    zero_words,
+                    tail_words,
+                    extra: rng.usize_range(0, nb - 1),
+                    seed: rng.next(),
+                    ops,
+                },
+            };
+        }
         let mode = if which < 4 {
             let mut ops = Vec::new();
             for _ in 0..nops {
@@ -856,6 +1030,9 @@ impl Family for C11 {
             Mode::WordRead { content, ops } => disp!(word_read, s, content, ops, ctx),
             Mode::BitWrite { e, ops } => bit_write(s, *e, ops, ctx),
             Mode::BitRead { e, buffered_reader, ops } => bit_read(s, *e, *buffered_reader, ops, ctx),
+            Mode::HugeSeek { head_words, zero_words, tail_words, extra, seed, ops } => {
+                disp!(huge_word_seek, s, *head_words, *zero_words, *tail_words, *extra, *seed, ops, ctx)
+            }
         }
     }
 
@@ -889,6 +1066,18 @@ impl Family for C11 {
                     out.push(S11 { mode: Mode::BitRead { e: *e, buffered_reader: *buffered_reader, ops: o }, ..s.clone() });
                 }
             }
+            Mode::HugeSeek { head_words, zero_words, tail_words, extra, seed, ops } => {
+                let mk = |ops: Vec<Op11>, z: u64, x: usize| S11 {
+                    mode: Mode::HugeSeek { head_words: *head_words, zero_words: z, tail_words: *tail_words, extra: x, seed: *seed, ops },
+                    ..s.clone()
+                };
+                for o in shrink_list(ops) {
+                    out.push(mk(o, *zero_words, *extra));
+                }
+                if *extra > 0 {
+                    out.push(mk(ops.clone(), *zero_words, 0));
+                }
+            }
         }
         // simpler fault plans (the class tag is preserved by the minimiser through the tags)
         for plan in s.plan.shrink(s.word.bytes()) {
@@ -898,18 +1087,19 @@ impl Family for C11 {
     }
 
     fn rule() -> &'static str {
-        "one case = (word type u8..u128, adapter directly over SimDisk or through std BufWriter/BufReader of a small capacity, fault plan, history). Histories: word-level writes+flush+word_pos+set_word_pos, word-level reads over a device whose length may end inside a word, bit-level streams written/read through the adapter. Fault plans: fault-free / benign-only (Short(k) for every k in 1..word bytes-1, Interrupted) / faulting (Ok(0), hard error kinds, seek error, full device); the first fault is placed systematically at call index (run/15) mod calls so that every call index is hit across runs, further benign faults at a per-run rate of 0-30%. distinct_nontrivial = distinct (mode, word, wrap, call index (capped), call outcome, whole/partial word available, fault class) signatures in runs that transferred at least one word"
+        "one case = (word type u8..u128, adapter directly over SimDisk or through std BufWriter/BufReader of a small capacity, fault plan, history). Histories: word-level writes+flush+word_pos+set_word_pos, word-level reads over a device whose length may end inside a word, bit-level streams written/read through the adapter. Fault plans: fault-free / benign-only (Short(k) for every k in 1..word bytes-1, Interrupted) / faulting (Ok(0), hard error kinds, seek error, full device); the first fault is placed systematically at call index (run/15) mod calls so that every call index is hit across runs, further benign faults at a per-run rate of 0-30%. distinct_nontrivial = distinct (mode, word, wrap, call index (capped), call outcome, whole/partial word available, fault class) signatures in runs that transferred at least one word Scale scenarios (one run in 25, fault-free): word-level reads, word_pos and set_word_pos on a byte source of up to 2^62 bytes (real head, zero run, real tail ending in a partial word), positions around 2^29 .. 2^62 bytes and around the end."
     }
 
     fn components() -> (Vec<&'static str>, Vec<&'static str>) {
         (
             vec!["WordAdapter (read_word/write_word/flush/word_pos/set_word_pos)", "std::io::BufWriter", "std::io::BufReader", "BufBitWriter", "BufBitReader", "BitReader"],
-            vec!["SimDisk (simulated byte device with fault plan)"],
+            vec!["SimDisk (simulated byte device with fault plan)", "sparse byte source (scale scenarios)"],
         )
     }
 
     fn required_probes(_t: Tier) -> Vec<&'static str> {
         vec![
+            "c11.word_pos_above_2^32",
             "c11.read_err_surfaced",
             "c11.partial_trailing_word_err",
             "c11.seek_on_reader",
